@@ -263,6 +263,7 @@ LEVEL_TEXT = ("Static data-flow and sibling-agreement rules on MIR: every value 
               "length-restoring step before it is used with a fixed length (32-byte test, Ed25519 seed constructor); the two PBKDF2 derivations have "
               "identical constant arguments and feed the seed constructor; randomness is unreachable from the password path; the own public key is "
               "trusted exactly when the configured list is empty."
-              " Password and key texts reach the crypto configuration exactly as given (shared with C20.R2).")
+              " Password and key texts reach the crypto configuration exactly as given (shared with C20.R2), and from there both PBKDF2 "
+              "derivations through identity calls only (no normalisation at one site).")
 LEVEL_NOTE = "Partial: decides C18.R1-R4. Not decided: acceptance of every printed key as a value statement; ring's Ed25519 contracts."
 TECHNIQUE = "source-to-sink path rule (must-pass-through a restoring step) on MIR, constant argument sibling agreement, call-graph reachability"
